@@ -242,6 +242,7 @@ func runC12(c *Ctx, w *World, r *Report) {
 	}
 	// ---------- Get / Get1 / SafeGet / SafeGet1
 	retExpr := map[string]ssa.Value{}
+	delegated := map[string]*ssa.Call{}
 	for _, n := range []string{"bitmap.Get", "bitmap.Get1", "bitmap.SafeGet", "bitmap.SafeGet1"} {
 		fn := fns[n]
 		fa := w.FA(fn)
@@ -256,6 +257,18 @@ func runC12(c *Ctx, w *World, r *Report) {
 			}
 			retExpr[n] = v
 			one := strings.HasSuffix(n, "1")
+			// the Safe variant may hand the in-range case to its sibling: Get(bm, i) / Get1(bm, i) of the same arguments
+			if strings.Contains(n, "Safe") {
+				sib := fns[strings.Replace(n, "Safe", "", 1)]
+				if call, ok := stripConv(v).(*ssa.Call); ok && sib != nil && call.Common().StaticCallee() == sib {
+					if call.Common().Args[0] == ssa.Value(fn.Params[0]) && call.Common().Args[1] == ssa.Value(fn.Params[1]) {
+						delegated[n] = call
+						continue
+					}
+					bad = "the sibling is not called with (bm, i)"
+					continue
+				}
+			}
 			a, b, ok := asBin(v, token.AND)
 			if !ok {
 				bad = "result is not a masked word"
@@ -300,6 +313,31 @@ func runC12(c *Ctx, w *World, r *Report) {
 		if strings.Contains(n, "Safe") {
 			badS := ""
 			nacc := 0
+			if call := delegated[n]; call != nil {
+				// the guarded access is the sibling's bm[i>>6]
+				nacc++
+				var k Lin
+				haveK := false
+				eachInstr(fn, func(ins ssa.Instruction) {
+					if v, ok := ins.(ssa.Value); ok && !haveK {
+						if x, c, ok := asShiftRight(v); ok && c == 6 && stripConv(x) == ssa.Value(fn.Params[1]) {
+							k, haveK = fa.Lin(v), true
+						}
+					}
+				})
+				if !haveK {
+					badS = "the word index i>>6 is never computed, so it cannot have been tested"
+				} else {
+					b1 := fa.BoundsAt(call.Block(), k)
+					b2 := fa.BoundsAt(call.Block(), k.Sub(linAtom("call:builtin len(p0)")))
+					if !(b1.HasLo && b1.Lo == 0) {
+						badS = "the sibling is called with i>>6 in " + b1.String() + ": the lower guard must be exactly >= 0"
+					}
+					if !(b2.HasHi && b2.Hi == -1) {
+						badS = "the sibling is called with i>>6 - len(bm) in " + b2.String() + ": the upper guard must be exactly < len(bm)"
+					}
+				}
+			}
 			for _, s := range elemSites(fn, "bm") {
 				nacc++
 				k := fa.Lin(s.Index)
@@ -322,6 +360,10 @@ func runC12(c *Ctx, w *World, r *Report) {
 		a, b := retExpr[pr[0]], retExpr[pr[1]]
 		if a == nil || b == nil {
 			r.Bad("R-SIB", pr[0]+"~"+pr[1], "-", "missing result expression")
+			continue
+		}
+		if delegated[pr[1]] != nil {
+			r.OK("R-SIB", pr[0]+"~"+pr[1], w.Pos(fns[pr[1]].Pos()), "the in-range result IS the sibling's: "+pr[1]+" calls "+pr[0]+"(bm, i)")
 			continue
 		}
 		va, vb := w.FA(fns[pr[0]]).VN(stripConv(a)), w.FA(fns[pr[1]]).VN(stripConv(b))
